@@ -93,3 +93,12 @@ CASES += [
     dict(id='c02-constraint-stored-before-validated', prop='C02', file=H, expect='R15',
          old="   ihc->validated();\n\n   mGlobalConstraints.push_back( ihc);", new="   mGlobalConstraints.push_back( ihc);\n\n   if (!ihc->isValueConstraint())\n      ihc->validated();"),
 ]
+
+HI = 'src/celma/common/has_intersection.hpp'
+CASES += [
+    dict(id='c02-orig-disjoint-by-merge-walk-of-unsorted-data', prop='C02', file=HI, expect='R17',
+         old="   if (std::is_sorted( cont1.cbegin(), cont1.cend())\n       && std::is_sorted( cont2.cbegin(), cont2.cend()))\n      return hasIntersection(",
+         new="   if (!cont1.empty())\n      return hasIntersection("),
+    dict(id='c02-eq-disjoint-always-by-search', prop='C02', file=HI, expect=None,
+         old="   if (std::is_sorted( cont1.cbegin(), cont1.cend())\n       && std::is_sorted( cont2.cbegin(), cont2.cend()))\n      return hasIntersection( cont1.cbegin(), cont1.cend(), cont2.cbegin(),\n         cont2.cend());\n", new=""),
+]
